@@ -236,7 +236,7 @@ def engine_unit(ctx, harness, eng, replay, pr):
 
     def record(fails, tr, origin):
         for f in fails:
-            if eng.get('accept') and not eng['accept'](f):
+            if eng.get('accept') and f.get('class') != 'hang' and not eng['accept'](f):
                 continue
             if len([v for v in ctx.violations if v.get('engine') == f['engine']]) >= 3:
                 break
@@ -248,6 +248,8 @@ def engine_unit(ctx, harness, eng, replay, pr):
             with open(path, 'w') as fh:
                 fh.write(f'# replay for property {pid}, engine unit-{name}, origin {origin}\n# failure: {f["msg"]}\n')
                 fh.write(f'# judge again with: {OTTERDRV} {name} < <this file from the line "script ..." on>\n')
+                if f.get('rerun'):
+                    fh.write(f'# reproduce with: {f["rerun"]}   (transcript up to the point where it stopped follows)\n')
                 fh.write('script ' + '\n'.join(lines) + '\n')
             v = dict(f)
             v['replay'] = path
@@ -266,9 +268,19 @@ def engine_unit(ctx, harness, eng, replay, pr):
 
     def job(j):
         start, n = j
-        rc, tr = _run([harness, eng.get('hcmd', 'unit-' + name), '-seed', str(ctx.seed), '-from', str(start), '-n', str(n)] + eng.get('args', []), timeout=3000)
-        if rc != 0:
-            raise RuntimeError(f'harness unit-{name} crashed: ' + tr.decode('utf-8', 'replace')[-600:])
+        cmd = [harness, eng.get('hcmd', 'unit-' + name), '-seed', str(ctx.seed), '-from', str(start), '-n', str(n)] + eng.get('args', [])
+        limit = eng.get('timeout', 300)
+        # the harness runs the real code in-process: a hang or a crash of a chunk is a failure of the implementation
+        # (or of the harness) on that chunk, reported with the command that reproduces it
+        try:
+            rc, tr = _run(cmd, timeout=limit)
+            what = None if rc == 0 else 'crashed (exit %d): %s' % (rc, tr.decode('utf-8', 'replace')[-300:].replace('\n', ' | '))
+        except subprocess.TimeoutExpired as e:
+            tr, what = (e.output or b''), 'did not terminate within %d s' % limit
+        if what is not None:
+            last = tr.decode('utf-8', 'replace').rsplit('script ', 1)[-1].split('\n')[0] if b'script ' in tr else f'{name}-{ctx.seed}-{start}'
+            return tr, [{'script': last, 'line': 10 ** 9, 'msg': f'the run on the real code {what}', 'at': ' '.join(cmd), 'engine': 'unit-' + name,
+                         'class': 'hang', 'rerun': ' '.join(cmd)}], {'scripts': '0', 'lines': '0', 'failed': '1'}
         fails, summ = judge(tr)
         return tr, fails, summ
     with concurrent.futures.ThreadPoolExecutor(max_workers=14) as ex:
